@@ -10,6 +10,8 @@ P = "Cppcms.C10.Props."
 OBLIGATIONS = [
     (P + "consistent_sharding", "key -> server index is a function of (number of servers, key) only, lies below the number of servers, and a fetch/store of k by any client (any L1 configuration) touches no other server"),
     (P + "frame_roundtrip", "byte image of a frame (header words little endian + payload), followed by anything, parses back to the same header and payload"),
+    (P + "recv_frame_any_segmentation", "from ANY segmentation of a byte stream starting with a well-formed frame, header read + exactly `size` payload bytes (stream_socket::read = read_some until full) yield that frame and leave exactly the following bytes on the connection"),
+    (P + "transmit_segmentation_independent", "messenger::transmit with arbitrary segmenters of request and reply (any piece sizes, payloads of any size < 2^32) = the unsegmented transmit of the model: same server step, same reply"),
     (P + "wire_roundtrip_store_partial", "WFwire k v ts d: the frame tcp_cache::store builds is well formed and session::store performs exactly that store: same key, value, deadline, same set of trigger names (excluded: empty key, empty / NUL-containing names, >= 2^31 bytes)"),
     (P + "wire_roundtrip_data_partial", "the server holds k -> (v,trigs,deadline,g), sizes fit, names NUL-free: tcp_cache::fetch returns v, deadline, g unchanged and the same set of trigger names"),
     (P + "step_eq_astep", "under the size bounds one cluster operation over the real codec (headers, uint32 fields, frame validation, strlen loops) EQUALS the operation over the message-level transport used in the coherence proofs"),
@@ -120,11 +122,12 @@ def gen_history(rng, nops, hostile=False, big=False):
     return lines
 
 
-SIZES = (0, 1, 15, 16, 127, 128, 255, 256, 257, 1023, 1024, 4095, 4096, 4097, 65535, 65536, 65537, 100000)
+SIZES = (0, 1, 15, 16, 127, 128, 255, 256, 257, 1023, 1024, 4095, 4096, 4097, 65535, 65536, 65537, 100000, 1 << 20)
+HUGE = ((3 << 20) + 5,)
 DEADLINES = (2**31 - 1, 2**31, 2**32 - 1, 2**32, 2**32 + 5, 2**62, 2**63 - 1, 0, -1, -2**31, -2**63)
 
 
-def boundary_history(rng, big):
+def boundary_history(rng, big, huge=False):
     """lengths and counts around powers of two (length fields, loop counters), extreme deadlines"""
     nsrv = rng.choice((1, 2))
     lines = ["cfg %s 0,n,5" % ",".join(["0"] * nsrv)]
@@ -133,7 +136,7 @@ def boundary_history(rng, big):
     for _ in range(rng.randrange(4, 12)):
         kl = rng.choice((1, 2, 31, 32, 255, 256, 257, 1000) + ((65536, 70001) if big else ()))
         k = bytes(rng.choice(b"kK\x01\xff") for _ in range(kl))
-        vl = rng.choice(sizes)
+        vl = rng.choice(sizes + (list(HUGE) * 3 if huge else []))
         v = "r%02xx%d" % (rng.randrange(256), vl) if vl > 64 else hx(bytes(rng.randrange(256) for _ in range(vl)))
         nt = rng.choice((0, 1, 2, 7, 8, 15, 16, 17, 127, 128, 129, 255, 256, 257) + ((600,) if big else ()))
         tl = rng.choice((1, 2, 8, 255, 256, 257) if nt < 20 else (1, 2, 5))
@@ -385,9 +388,27 @@ def gen_raw_history(rng, L, nops):
             fr = L.frame(b"", opcode=OPC["stats"])
         else:
             fr = L.frame(rng.choice((b"", b"0123456789abcdef0123456789abcdefXX")), opcode=rng.choice((5, 6, 7, 8, 9, 10, 11, 12, 13, 14, 15, 255, 2**32 - 1)))
-        lines.append("raw %d %d %s" % (srv, now, fr.hex()))
+        if rng.random() < 0.25:
+            lines.append("rawseg %d %d %d %s" % (srv, now, rng.choice((1, 3, 7, 39, 40, 41, 64)), fr.hex()))
+        else:
+            lines.append("raw %d %d %s" % (srv, now, fr.hex()))
         if rng.random() < 0.15:
             lines.append("stats 0")
+    return lines
+
+
+def big_reply_lines(rng, L, sizes):
+    """a real tcp_cache receives data replies of 0.3 .. several MiB from a throttled peer (pieces of 1..64 KiB with
+    pauses): messenger::transmit must assemble exactly `size` bytes and leave the connection in step (the next,
+    small exchange on the same connection is checked too)"""
+    lines = []
+    for sz in sizes:
+        v = bytes((i * 131 + sz) & 255 for i in range(257)) * (sz // 257) + b"\x00" * (sz % 257)
+        reg = b"big\x00t\x00"
+        rep = L.frame(v + reg, opcode=OPC["data"], data__data_len=len(v), data__triggers_len=len(reg), data__generation=sz, data__timeout=7)
+        lines.append("cws %d fetch %s 1 %s %s" % (rng.choice((1024, 4096, 16384, 65536)), b"bigkey".hex(), rng.choice(("-", "3")), rep.hex()))
+        small = L.frame(b"xy", opcode=OPC["data"], data__data_len=2, data__triggers_len=0, data__generation=1, data__timeout=9)
+        lines.append("cw fetch %s 0 - %s" % (b"after".hex(), small.hex()))
     return lines
 
 
@@ -396,6 +417,10 @@ def gen_cw_lines(rng, L, harvested, n):
     lines = []
     ok = L.frame(b"", opcode=OPC["done"]).hex()
     for _ in range(n):
+        if rng.random() < 0.3:
+            sub = gen_cw_lines(rng, L, harvested, 1)
+            lines.append("cws %d %s" % (rng.choice((1, 2, 5, 39, 40, 41, 100, 1000)), sub[0][3:]))
+            continue
         r = rng.random()
         k = rand_name(rng, 0, 5, nul=rng.random() < 0.2)
         if rng.random() < 0.5 and harvested:
@@ -750,7 +775,7 @@ def main():
     run_stream("exhaustive", hs, True)
     hs = [gen_history(rng, rng.randrange(30, 200), big=(i % 5 == 0)) for i in range(4000 if thorough else 160)]
     run_stream("random", hs, True)
-    hs = [boundary_history(rng, big=thorough or i == 0) for i in range(60 if thorough else 6)]
+    hs = [boundary_history(rng, big=thorough or i == 0, huge=thorough and i % 10 == 0) for i in range(60 if thorough else 6)]
     run_stream("boundary", hs, True)
     ns = [1, 2, 127, 128, 255, 256, 257, 511, 512, 513, 1024, 4096] + ([65535, 65536, 65537] if thorough else [])
     hs = [churn_history(rng, n) for n in ns for _ in range(3 if thorough else 1)]
@@ -770,6 +795,7 @@ def main():
         lines, r = run_stream("raw", hs, False)
         harvested = sorted({o for l, o in zip(lines, r["out_i"]) if l.startswith("raw") and re.fullmatch(r"[0-9a-f]+", o or "")})
         cw = gen_cw_lines(rng, L, harvested, 25000 if thorough else 800)
+        cw += big_reply_lines(rng, L, (300001, 1 << 20, (2 << 20) + 17, 5 << 20) if thorough else (300001, 1 << 20))
         run_stream("cw", [cw], False)
     else:
         c.broke("layout", "Gen.layoutStr not found")
